@@ -51,6 +51,12 @@ def execute(chunk):
                 kw['split_method'] = 'fixed_vector'
             try:
                 m = xrec.RecXRFM(stub_leaves=p['stub'], **kw)
+                if p.get('prefit'):
+                    # the same estimator was fitted before, on other data of the same shape (that recording is dropped)
+                    X0, y0, Xv0, yv0, _ = c07.make(dict(p, dseed=p['dseed'] + 13))
+                    with xrec.recording(m):
+                        m.fit(X0, y0, Xv0, yv0)
+                    m.rec_roots = []
                 with xrec.recording(m):
                     m.fit(X, y, Xv, yv)
             except Exception as e:
@@ -189,6 +195,14 @@ def gen_cases(run):
         cases.append(dict(family='constant-target-nodes', n=r.randint(5 * L, 9 * L), d=r.randint(2, 4), L=L, f=0.0, nsplits=None, refill=r.choice([5, 20]),
                           nval=r.randint(40, 120), val_spread=1.0, method=['linear', 'linear', 'rf_criterion', 'pca'][k % 4] if k % 2 == 0 else 'linear',
                           task='relu', outputs=1, classes=2, mode='zero_one', stub=True, iters=0, dseed=r.randint(0, 10 ** 6)))
+    # the estimator is fitted a second time on other data of the same shape: every split must come from the data of this fit
+    meths = ['pca', 'rf_criterion', 'linear', 'fixed_vector', 'random', 'top_vector_agop_on_subset', 'random_pca', 'pca']
+    for k in range(8 if run.tier == 'quick' else 48):
+        L = r.choice([12, 16, 24])
+        cases.append(dict(family='refit-same-shape', prefit=True, n=r.randint(3 * L, 7 * L), d=r.randint(2, 4), L=L, f=[0.0, 0.1][k % 2] if L >= 16 else 0.0,
+                          nsplits=None, refill=r.choice([5, 20]), nval=r.randint(30, 90), val_spread=1.0, method=meths[k % len(meths)],
+                          task=['reg', 'class'][(k // 2) % 2] if meths[k % len(meths)] != 'linear' else 'reg', outputs=1, classes=2, mode='zero_one',
+                          stub='agop' not in meths[k % len(meths)], iters=0, dseed=r.randint(0, 10 ** 6)))
     # a node above the sizes at which libraries start to estimate quantiles from subsamples (tens of thousands of rows):
     # one split at the root, leaf models stubbed
     for k in range(1 if run.tier == 'quick' else 4):
